@@ -29,7 +29,7 @@ ConvDlq(r) == [id |-> r.id, att |-> r.att]
 LoggedP(S) ==   \* the step lands in the logged projection
   /\ wf' = [status |-> S.wf.status, canceled |-> S.wf.canceled]
   /\ st' = [s \in DOMAIN S.st |-> ConvStage(S.st[s])]
-  /\ tk' = [t \in DOMAIN S.tk |-> [status |-> S.tk[t].status, ver |-> S.tk[t].ver, prog |-> S.tk[t].prog]]
+  /\ tk' = [t \in DOMAIN S.tk |-> [status |-> S.tk[t].status, ver |-> S.tk[t].ver, prog |-> S.tk[t].prog, seen |-> ToSetS(S.tk[t].seen)]]
   /\ q' = {ConvMsg(m) : m \in ToSetS(S.q)}
   /\ dlq' = {ConvDlq(m) : m \in ToSetS(S.dlq)}
   /\ done' = ToSetS(S.done)
@@ -37,7 +37,7 @@ LoggedP(S) ==   \* the step lands in the logged projection
 Logged0(S) ==
   /\ wf = [status |-> S.wf.status, canceled |-> S.wf.canceled]
   /\ st = [s \in DOMAIN S.st |-> ConvStage(S.st[s])]
-  /\ tk = [t \in DOMAIN S.tk |-> [status |-> S.tk[t].status, ver |-> S.tk[t].ver, prog |-> S.tk[t].prog]]
+  /\ tk = [t \in DOMAIN S.tk |-> [status |-> S.tk[t].status, ver |-> S.tk[t].ver, prog |-> S.tk[t].prog, seen |-> ToSetS(S.tk[t].seen)]]
   /\ q = {ConvMsg(m) : m \in ToSetS(S.q)}
   /\ done = ToSetS(S.done)
 
